@@ -902,6 +902,84 @@ func extractCloseProto(repo, root string) error {
 	add("writerCloseClosesItsOwnTransport", "(*Writer).Close: after group.Wait(), the connections of the writer's own transport are closed",
 		before(firstIdx(wc, callAtom(false, "group", "Wait")), firstIdx(wc, callAtom(false, "CloseIdleConnections"))))
 
+	// ---- round 6: every blocking network operation inside (*reader).run has a deadline
+	// Source-order walk of run with the reader's own helpers (initialize, read, readOffsets, …) inlined to depth 3:
+	// `armed` follows conn.SetDeadline (non-zero time ⇒ armed, time.Time{} ⇒ cleared); every offsets request
+	// (ReadOffsets / ReadFirstOffset / ReadLastOffset / ReadOffset, and a Seek that checks against them) must happen
+	// while a deadline is armed — a blocked socket read does not observe the context, only a deadline or Close of the
+	// connection ends it, and the fetcher itself is the only one that closes its connection.
+	type netop struct {
+		what  string
+		armed bool
+	}
+	var ops []netop
+	var walkDeadlines func(d *ast.FuncDecl, depth int, armed *bool)
+	walkDeadlines = func(d *ast.FuncDecl, depth int, armed *bool) {
+		if d == nil || d.Body == nil {
+			return
+		}
+		ast.Inspect(d.Body, func(m ast.Node) bool {
+			c, ok := m.(*ast.CallExpr)
+			if !ok {
+				return true
+			}
+			sel, ok := c.Fun.(*ast.SelectorExpr)
+			if !ok {
+				return true
+			}
+			switch sel.Sel.Name {
+			case "SetDeadline":
+				*armed = len(c.Args) == 1 && !strings.Contains(p.src(c.Args[0]), "time.Time{}")
+			case "ReadOffsets", "ReadFirstOffset", "ReadLastOffset", "ReadOffset":
+				ops = append(ops, netop{sel.Sel.Name, *armed})
+			case "Seek":
+				if !strings.Contains(p.src(c), "SeekDontCheck") {
+					ops = append(ops, netop{"Seek", *armed})
+				}
+			default:
+				if h := p.fns[fnKey{"reader", sel.Sel.Name}]; h != nil && depth < 3 && h != d {
+					walkDeadlines(h, depth+1, armed)
+				}
+			}
+			return true
+		})
+	}
+	armed := false
+	walkDeadlines(p.fns[fnKey{"reader", "run"}], 0, &armed)
+	allArmed := true
+	for _, o := range ops {
+		if !o.armed {
+			allArmed = false
+		}
+	}
+	add("fetcherOffsetRequestsHaveDeadline", "(*reader).run with its helpers inlined: every offsets request (readOffsets in initialize, the Seek that follows it, readOffsets after an OffsetOutOfRange fetch) happens while a connection deadline set by SetDeadline is armed", allArmed && len(ops) >= 3)
+	rd := p.flatten(p.fns[fnKey{"reader", "read"}], 0)
+	add("fetcherReadHasDeadline", "(*reader).read: conn.SetReadDeadline(…) before ReadBatchWith", before(firstIdx(rd, callAtom(false, "SetReadDeadline")), firstIdx(rd, func(a atom) bool { return hasCall(a.node, false, "ReadBatchWith") })))
+
+	// every request method of timeoutCoordinator arms the connection deadline before it delegates to the connection
+	nCoord, coordOK := 0, true
+	for k, d := range p.fns {
+		if k.recv != "timeoutCoordinator" || k.name == "Close" || d.Body == nil {
+			continue
+		}
+		nCoord++
+		as := p.flatten(d, 0)
+		iDl := firstIdx(as, func(a atom) bool { return hasCall(a.node, false, "SetDeadline") })
+		iReq := firstIdx(as, func(a atom) bool {
+			r, ok := a.node.(*ast.ReturnStmt)
+			return ok && (hasCall(r, false, k.name) || hasCall(r, false, strings.ToUpper(k.name[:1])+k.name[1:]))
+		})
+		if !before(iDl, iReq) {
+			coordOK = false
+		}
+	}
+	add("coordinatorCallsHaveDeadline", "timeoutCoordinator: every request method (findCoordinator, joinGroup, syncGroup, leaveGroup, heartbeat, offsetFetch, offsetCommit, readPartitions) calls conn.SetDeadline before it delegates to the connection", coordOK && nCoord >= 8)
+
+	pr := p.flatten(p.fns[fnKey{"Writer", "produce"}], 0)
+	add("produceRunsUnderWriteTimeout", "(*Writer).produce: the request context comes from context.WithTimeout(…, w.writeTimeout()) (or WithDeadline) before client.Produce",
+		before(firstIdx(pr, func(a atom) bool { return hasCall(a.node, false, "WithTimeout") || hasCall(a.node, false, "WithDeadline") }),
+			firstIdx(pr, func(a atom) bool { return hasCall(a.node, false, "Produce") })))
+
 	// ---- emit
 	sort.SliceStable(facts, func(i, j int) bool { return false })
 	var b strings.Builder
